@@ -359,6 +359,8 @@ type c20World struct {
 	unpub    *c20Unpub
 	writer   *batch.Writer
 	dh       *dochandler.DocumentHandler
+	restUpd  *restdochandler.UpdateHandler // one REST handler per node, kept for the whole run
+	restRes  *restdochandler.ResolveHandler
 	obs      *observer.Observer
 	obsCh    chan []txn.SidetreeTxn
 	reqs     map[int64]*c20Req
@@ -581,16 +583,20 @@ func restResult(rec *httptest.ResponseRecorder) (*document.ResolutionResult, err
 }
 
 func (w *c20World) restUpdate(body []byte) (*document.ResolutionResult, error) {
-	h := restdochandler.NewUpdateHandler(w.dh, w.client, c20HTTPMetrics{})
+	if w.restUpd == nil {
+		w.restUpd = restdochandler.NewUpdateHandler(w.dh, w.client, c20HTTPMetrics{})
+	}
 	rec := httptest.NewRecorder()
-	h.Update(rec, httptest.NewRequest("POST", "/operations", bytes.NewReader(body)))
+	w.restUpd.Update(rec, httptest.NewRequest("POST", "/operations", bytes.NewReader(body)))
 	return restResult(rec)
 }
 
 func (w *c20World) restResolve(did string) (*document.ResolutionResult, error) {
-	h := restdochandler.NewResolveHandler(w.dh, c20HTTPMetrics{})
+	if w.restRes == nil {
+		w.restRes = restdochandler.NewResolveHandler(w.dh, c20HTTPMetrics{})
+	}
 	req := mux.SetURLVars(httptest.NewRequest("GET", "/identifiers/"+did, nil), map[string]string{"id": did})
 	rec := httptest.NewRecorder()
-	h.Resolve(rec, req)
+	w.restRes.Resolve(rec, req)
 	return restResult(rec)
 }
